@@ -1,7 +1,9 @@
 """C17 (G): parser half.  TLC enumerates every token sequence of spec/Grammar.tla (three languages) up to a small
 length (plus -simulate samples of longer SPL sequences in the thorough tier); each text is parsed twice by the real
 parser (same text => same plan, no hang) and every text that parses is executed over a small stored data set
-(answer or error in bounded time, process alive).  Two further product grammars are executed completely:
+(answer or error in bounded time, process alive).  The clause grammar (GrammarClauses) gives single clauses
+with column lists, every ordered pair of clauses over single columns (quick, all executed) and pairs with column lists
+(thorough).  Two further product grammars are executed completely:
 GrammarEval (positional eval functions x boundary arguments) and GrammarProm (PromQL range function x selector form incl.
 subquery step classes x shape of the request's time range x outer aggregation); a hang is a verdict only when the same
 request hangs again on a fresh process over the same stored data."""
@@ -37,6 +39,14 @@ def run(chk, binary):
     # clause grammar: well-formed pipelines whose commands take column lists with repetition / permutation
     beh, r = vlib.tlc_generate("GrammarClauses", "Gen_GrammarClauses.cfg" if quick else "Gen_GrammarClauses_deep.cfg", timeout=900)
     chk.add_tlc("GrammarClauses", r, "search | clause [| clause] with column lists")
+    if quick:
+        # every ORDERED PAIR of clauses over single columns (a clause reading a column the previous one removed, a limit
+        # behind an aggregation, ...); the thorough config has the pairs with column lists
+        beh2, r2 = vlib.tlc_generate("GrammarClauses", "Gen_GrammarClauses_pairs.cfg", timeout=900)
+        chk.add_tlc("GrammarClauses[pairs]", r2, "search | clause | clause over single columns")
+        for b in beh2:
+            b["pair"] = True
+        beh = beh + beh2
     for b in beh:
         parts = [b["search"]]
         for c in b["clauses"]:
@@ -44,7 +54,10 @@ def run(chk, binary):
                 parts.append("%s by %s" % (c["cmd"], ", ".join(c["by"])))
             else:
                 parts.append("%s %s" % (c["cmd"], ", ".join(c["cols"])))
-        texts.append({"lang": "spl", "text": " | ".join(parts)})
+        t = {"lang": "spl", "text": " | ".join(parts)}
+        if b.get("pair"):
+            t["req"] = True        # executed completely, not sampled
+        texts.append(t)
     # eval grammar: positional functions x argument values around the boundaries of the stored values
     beh, r = vlib.tlc_generate("GrammarEval", "Gen_GrammarEval.cfg", timeout=600)
     chk.add_tlc("GrammarEval", r, "eval r=<positional fn>(column, a [, b]) over 7 integer classes")
